@@ -5,7 +5,10 @@ import (
 	"strings"
 )
 
-var safetyNameRe = regexp.MustCompile(`:(nil|index|slice|div0|shift|typeassert|chan|makeslice|nilmap|panic):\d+$`)
+// obligations listed as unclaimed in the baseline of the property being checked
+var evidenceUnclaimed map[string]bool
+
+var safetyNameRe =regexp.MustCompile(`:(nil|index|slice|div0|shift|typeassert|chan|makeslice|nilmap|panic):\d+$`)
 
 // funcStillPresent: the function an obligation name belongs to was verified in this run.
 func funcStillPresent(name string, out *runOutput) bool {
